@@ -297,6 +297,40 @@ class Escapes:
     def site(self, f, node, what):
         return f'{f.module.relpath}:{getattr(node, "lineno", 0)} {what} @{f.fq}'
 
+    @staticmethod
+    def kind(node):
+        """a description of the raising construct that does not depend on local variable names"""
+        if isinstance(node, ast.Raise):
+            e = node.exc
+            if e is None:
+                return 'raise (re-raise)'
+            if isinstance(e, ast.Call):
+                return f'raise {(dotted(e.func) or "?").split(".")[-1]}(...)'
+            if isinstance(e, ast.Name):
+                return 'raise <name>'
+            if isinstance(e, ast.Attribute):
+                return f'raise <...>.{e.attr}'
+            return 'raise <expr>'
+        if isinstance(node, ast.Call):
+            d = dotted(node.func) or ''
+            last = call_attr(node)
+            if last == 'decode':
+                return '<bytes>.decode()'
+            if d.endswith('loads'):
+                return 'json.loads(...)'
+            if d in ('int', 'float'):
+                return f'{d}(<text>)'
+            if d == 'next':
+                return 'next(<iterator>)'
+            if last == 'update':
+                return '<dict>.update(<json value>)'
+            return f'{last}(...)'
+        if isinstance(node, ast.Assign):
+            return '<a, b> = <str>.split(...)'
+        if isinstance(node, ast.Subscript):
+            return f'<mapping>[{ast.unparse(node.slice)}]'
+        return type(node).__name__
+
     def sites(self, f):
         """yield (ast node, [class names], origin text)"""
         P = self.P
@@ -310,21 +344,21 @@ class Escapes:
                 if isinstance(e, ast.Call):
                     d = dotted(e.func) or ''
                     if d.split('.')[-1] in BUILTIN_EXC or self.class_of(f, d) is not None:
-                        yield n, [d.split('.')[-1]], self.site(f, n, short(n, 50))
+                        yield n, [d.split('.')[-1]], self.site(f, n, self.kind(n))
                         continue
                     # raise self._raise(...) / raise helper(...): the call's own escapes are collected at the Call node
                     continue
                 if isinstance(e, ast.Name):
                     if e.id in BUILTIN_EXC or self.class_of(f, e.id) is not None:
-                        yield n, [e.id], self.site(f, n, short(n, 50))
+                        yield n, [e.id], self.site(f, n, self.kind(n))
                         continue
                     classes = self.var_classes(f, e, n)
-                    yield n, classes, self.site(f, n, short(n, 50))
+                    yield n, classes, self.site(f, n, self.kind(n))
                     continue
                 if isinstance(e, ast.Attribute):
-                    yield n, ['<stored:' + (dotted(e) or '?') + '>'], self.site(f, n, short(n, 50))
+                    yield n, ['<stored:' + (dotted(e) or '?') + '>'], self.site(f, n, self.kind(n))
                     continue
-                yield n, ['<unknown>'], self.site(f, n, short(n, 50))
+                yield n, ['<unknown>'], self.site(f, n, self.kind(n))
             elif isinstance(n, ast.Call):
                 d = dotted(n.func) or ''
                 last = call_attr(n)
@@ -333,19 +367,19 @@ class Escapes:
                         (isinstance(a, ast.Constant) and a.value in ('ignore', 'replace', 'backslashreplace', 'surrogateescape')) for a in n.args[1:] + [k.value for k in n.keywords]):
                     recv = n.func.value
                     if not (isinstance(recv, ast.Call) and call_attr(recv) == 'encode'):   # x.encode(a).decode(b) transcoding idiom
-                        yield n, ['UnicodeDecodeError'], self.site(f, n, short(n, 50))
+                        yield n, ['UnicodeDecodeError'], self.site(f, n, self.kind(n))
                 elif d in ('json.loads', 'json_mod.loads', 'json.load'):
-                    yield n, ['ValueError'], self.site(f, n, short(n, 50))
+                    yield n, ['ValueError'], self.site(f, n, self.kind(n))
                 elif d in ('int', 'float') and n.args and not isinstance(n.args[0], ast.Constant):
                     a0 = n.args[0]
                     numeric = isinstance(a0, ast.Call) and dotted(a0.func) in ('len', 'int', 'float', 'round', 'time.time') or \
                         isinstance(a0, (ast.BinOp,)) or (isinstance(a0, ast.Attribute) and a0.attr in ('st_mtime', 'st_size'))
                     if not numeric:
-                        yield n, ['ValueError'], self.site(f, n, short(n, 50))
+                        yield n, ['ValueError'], self.site(f, n, self.kind(n))
                 elif d == 'next' and len(n.args) == 1:
-                    yield n, ['StopIteration'], self.site(f, n, short(n, 50))
+                    yield n, ['StopIteration'], self.site(f, n, self.kind(n))
                 elif last == 'update' and n.args and isinstance(n.args[0], ast.Attribute) and n.args[0].attr == 'json':
-                    yield n, ['TypeError', 'ValueError'], self.site(f, n, short(n, 50))
+                    yield n, ['TypeError', 'ValueError'], self.site(f, n, self.kind(n))
                 # resolved callees
                 cs = self.callees(f, n)
                 if cs:
@@ -360,7 +394,7 @@ class Escapes:
                 t = n.targets[0]
                 if isinstance(t, (ast.Tuple, ast.List)) and isinstance(n.value, ast.Call) and call_attr(n.value) == 'split' \
                         and not any(isinstance(e, ast.Starred) for e in t.elts):
-                    yield n, ['ValueError'], self.site(f, n, short(n, 50))
+                    yield n, ['ValueError'], self.site(f, n, self.kind(n))
             elif isinstance(n, ast.Attribute) and isinstance(n.ctx, ast.Load) and isinstance(n.value, ast.Name) and n.value.id == 'self' \
                     and not (isinstance(getattr(n, '_p', None), ast.Call) and n._p.func is n):
                 # property / cache_in getter evaluated by an attribute load
@@ -370,7 +404,7 @@ class Escapes:
             elif isinstance(n, ast.Subscript) and isinstance(n.ctx, ast.Load) and isinstance(n.slice, ast.Constant) and isinstance(n.slice.value, str):
                 base = dotted(n.value) or ''
                 if base.endswith('.options'):
-                    yield n, ['KeyError'], self.site(f, n, short(n, 50))
+                    yield n, ['KeyError'], self.site(f, n, self.kind(n))
 
     def resolve_self_attr_getters(self, f, attr):
         key = (f.owner_cls.fq if f.owner_cls else None, attr)
